@@ -43,6 +43,17 @@ CLAIMED.update({
                      'drained when parsing ends. Does not measure resident memory.', ref='5 (C13)'),
 })
 
+CLAIMED.update({
+    'C18': dict(cat='other', tech='must-definition dataflow over the per-operand initialisation prefix vs. run-written/read global locations (per mode), who-may-read/write rules',
+                text='Decides the state carry-over clause: every global location that run-time code of a mode writes and '
+                     'reads upward-exposed is stored on every path of the next run\'s initialisation prefix (main-level '
+                     'input_init/output_init, work(), schedule()/copy(), primary_thread up to init_io incl. the mode\'s '
+                     'init callback), or is restored by construction / in a structurally verified exception table; no '
+                     'function-local static is written; exit status is warned ? 4 : 0, warned is only set by warn* and only '
+                     'read for the exit status. Does not decide equality of outputs with separate invocations.',
+                ref='5 (C18)'),
+})
+
 NA = {
     'C01': 'round-trip equality is a numerical fact about RLE/BWT/MTF/Huffman and its inverse over all byte strings; '
            'no sound static argument in reach bounds it (DESIGN.md section 6); its shape-level fragments are decided '
